@@ -93,7 +93,7 @@ def run(ctx):
     ctx.ob("leaderboard-step:writers", who == ["InitializeCompetition::invoke", "OnExecuted::update_leaderboard"], "Competition.leaderboard is mutated by %s" % who,
            where="programs/competition/src")
     if g:
-        cl = {c.id.rsplit("::", 1)[-1]: [str(e) for _, _, e in c.exits()] for c in prog.closures_of(g)}
+        cl = {c.id.rsplit("::", 1)[-1]: H.closure_view(prog, g, c) for c in prog.closures_of(g)}
         ins = [c for c in g.calls if c.short == "Vec::insert" and str(c.arg_expr(0)) == "comp.leaderboard"]
         rem = [c for c in g.calls if c.short == "Vec::remove" and str(c.arg_expr(0)) == "comp.leaderboard"]
         tr = [c for c in g.calls if c.short == "Vec::truncate" and str(c.arg_expr(0)) == "comp.leaderboard"]
@@ -105,7 +105,7 @@ def run(ctx):
             # dedup
             pos = str(r0.arg_expr(1))
             m = re.match(r"^Iterator::position\(\[T\]::iter\(comp\.leaderboard\), closure<.*(\{closure#\d+\})>\)@Some\.0$", pos)
-            ok = m is not None and cl.get(m.group(1)) in (["PartialEq::eq(e.address, ^part.trader)"], ["PartialEq::eq(^part.trader, e.address)"]) and g.dominates(r0.bb, i0.bb) is False
+            ok = m is not None and cl.get(m.group(1)) in (["PartialEq::eq($1.address, <part>.trader)"], ["PartialEq::eq(<part>.trader, $1.address)"]) and g.dominates(r0.bb, i0.bb) is False
             # remove happens on the Some arm and precedes the insert on that path
             ok = ok and g.can_reach(r0.bb, i0.bb) and not g.can_reach(i0.bb, r0.bb)
             some_guard = [(s, allowed) for s, cond, allowed, labels in g.guards(r0.bb) if cond.k == "discr" and "Iterator::position(" in str(cond)]
@@ -120,15 +120,42 @@ def run(ctx):
             ok = ok and any(s == some_guard[0][0] and allowed == frozenset([1]) for s, cond, allowed, labels in g.guards(vol_w[0]["bb"])) if some_guard else False
             ctx.ob("leaderboard-step:latest-volume", ok, "the inserted entry is either a new {part.trader, part.volume} or the removed entry with volume := part.volume", where=g.where(i0.line),
                    detail=[a[:90] for a in alts])
-            # ordered insert index
+            # ordered insert index: (last index whose volume >= new volume) + 1, or 0 when there is none — either as
+            # rposition(..).map(|p| p + 1).unwrap_or(0) or as a match/if-let on the Option (per-arm definitions)
             idx = str(i0.arg_expr(1))
-            m = re.match(r"^Option::unwrap_or\(Option::map\(Iterator::rposition\(\[T\]::iter\(comp\.leaderboard\), closure<.*(\{closure#\d+\})>\), closure<.*(\{closure#\d+\})>\), 0\)$", idx)
-            ok = m is not None and re.match(r"^\(e\.volume Ge \^entry(__|\.)volume\)$", (cl.get(m.group(1)) or [""])[0]) is not None and \
-                cl.get(m.group(2)) in (["(pos AddWithOverflow 1).0"], ["(pos Add 1)"])
-            ctx.ob("leaderboard-step:ordered-insert", ok, "insert index = rposition(|e| e.volume >= entry.volume).map(|p| p + 1).unwrap_or(0)", where=g.where(i0.line))
+            rp = [c for c in g.calls if c.short == "Iterator::rposition" and str(c.arg_expr(0)) == "[T]::iter(comp.leaderboard)"]
+            pred_ok = False
+            if len(rp) == 1 and rp[0].arg_expr(1).k == "closure":
+                cname = rp[0].arg_expr(1).a[0].rsplit("::", 1)[-1]
+                pv = (cl.get(cname) or [""])[0]
+                mm = re.match(r"^\(\$1\.volume Ge <(.*)>\)$", pv) or re.match(r"^\(<(.*)> Le \$1\.volume\)$", pv)
+                # the compared volume is the volume of the entry being inserted (new: part.volume; moved: set to part.volume)
+                if mm is not None:
+                    inner = mm.group(1)
+                    alts_v = set(re.split(r" \| ", inner[4:-1])) if inner.startswith("phi(") and inner.endswith(")") else {inner}
+                    moved = "%s.volume" % g._call_expr(r0, 0, ())
+                    pred_ok = "part.volume" in alts_v and alts_v <= {"part.volume", moved}
+            rps = "Iterator::rposition([T]::iter(comp.leaderboard), "
+            shape_ok = False
+            m = re.match(r"^Option::unwrap_or\(Option::map\(Iterator::rposition\(\[T\]::iter\(comp\.leaderboard\), closure<.*>\), closure<.*(\{closure#\d+\})>\), 0\)$", idx)
+            if m is not None:
+                shape_ok = cl.get(m.group(1)) in (["($1 AddWithOverflow 1).0"], ["($1 Add 1)"])
+            else:
+                tab = {}
+                for bb, e in H.phi_defs(g, i0.args[1]):
+                    arm = None
+                    if bb is not None:
+                        for sb, cond, allowed, labels in g.guards(bb):
+                            if cond.k == "discr" and str(cond.a[0]).startswith(rps):
+                                arm = "Some" if allowed == frozenset([1]) else ("None" if allowed == frozenset([0]) else None)
+                    tab[arm] = str(e)
+                shape_ok = set(tab) == {"Some", "None"} and tab["None"] == "0" and \
+                    re.match(r"^\(" + re.escape(rps) + r"closure<.*>\)@Some\.0 (AddWithOverflow|Add) 1\)(\.0)?$", tab["Some"]) is not None
+            ctx.ob("leaderboard-step:ordered-insert", pred_ok and shape_ok and len(rp) == 1,
+                   "insert index = (rposition(|e| e.volume >= entry.volume) + 1) or 0 when none (predicate ok=%s, index shape ok=%s)" % (pred_ok, shape_ok), where=g.where(i0.line))
             # bounded
             facts = A.cmp_facts(g, i0.bb)
-            ok = any(o == "<" and str(a) == idx and re.search(r"MAX_LEADERBOARD_LEN as usize\)$", str(b)) for (o, a, b) in facts if b is not None)
+            ok = any(o == "<" and str(a) == str(i0.arg_expr(1)) and re.search(r"MAX_LEADERBOARD_LEN as usize\)$", str(b)) for (o, a, b) in facts if b is not None)
             ctx.ob("leaderboard-step:insert-below-max", ok, "the insert happens only for index < MAX_LEADERBOARD_LEN", where=g.where(i0.line))
             lsw = [i for i, b in enumerate(g.blocks) if b["t"][0] == "switch" and re.match(r"^\(Vec::len\(comp\.leaderboard\) Gt \(states::MAX_LEADERBOARD_LEN as usize\)\)$", str(g.expr(b["t"][1])))]
             ok = len(lsw) == 1 and H.must_pass(g, i0.target if i0.target is not None else i0.bb, lsw) and g.dominates(i0.bb, lsw[0])
